@@ -262,7 +262,13 @@ func genPager(r *Rng, g *PageGen) pagerCase {
 	}
 	pager := open + before + sep + strings.Join(items, sep) + sep + after + close
 	var sb strings.Builder
-	sb.WriteString("<html><head><title>A paginated article about things</title></head><body>")
+	base := ""
+	if r.Chance(12) {
+		// a <base> element: the library resolves against the page URL the caller supplied
+		base = `<base href="` + r.Pick("http://other.example.net/", "https://cdn.example.org/mirror/a/", fam.Base+"/", "//static.example.net/x/", "/elsewhere/") + `">`
+		desc["base"] = "1"
+	}
+	sb.WriteString("<html><head><title>A paginated article about things</title>" + base + "</head><body>")
 	sb.WriteString("<h1>A paginated article</h1>")
 	if r.Chance(30) {
 		sb.WriteString(pager)
